@@ -2,13 +2,15 @@
 from .. import common as C
 
 ID = "C09"
-MODULES = ["Helios.Props.C09", "Helios.Props.Facts", "Helios.Props.CodeRL", "Helios.Props.CodeWire"]
+MODULES = ["Helios.Props.C09", "Helios.Props.Facts", "Helios.Props.CodeRL", "Helios.Props.CodeWire", "Helios.Props.CodeAddr"]
 THEOREMS = [
     "Helios.RL.window_bound_sharp", "Helios.RL.window_bound", "Helios.RL.burst_bound",
     "Helios.RL.isolation", "Helios.RL.isolation_frame", "Helios.RL.fresh_full",
     "Helios.RL.idle_refill",
             "Helios.Facts.rl_cutoff_eq", "Helios.Facts.extraction_clean",
-            "Helios.CodeTie.refillTokens_refines", "Helios.CodeTie.allow_refines", "Helios.CodeTie.setupRateLimiter_refines", "Helios.CodeTie.rlEff_accepted", "Helios.CodeTie.translation_clean_wire", "Helios.CodeTie.translation_clean_rl"]
+            "Helios.CodeTie.refillTokens_refines", "Helios.CodeTie.allow_refines", "Helios.CodeTie.setupRateLimiter_refines", "Helios.CodeTie.rlEff_accepted", "Helios.CodeTie.translation_clean_wire", "Helios.CodeTie.translation_clean_rl",
+            # Tie C: utils.GetClientIP (the bucket key), translated from the source on every run
+            "Helios.CodeTie.GetClientIP_refines", "Helios.CodeTie.translation_clean_addr"]
 CUTOFF = 3600 * 10**9
 CLIENTS = ["a", "b", "10.0.0.1", "[::1]", "x,y", "%20", "A"]
 
@@ -186,8 +188,9 @@ def check(ctx):
     # a crowd larger than any table bound an implementation might have (tens of thousands of addresses between two
     # requests of one client), judged by the oracle alone: the model's client map is a function chain, quadratic in
     # the number of clients, so the quick tier gives the model 6 000 clients (above) and the implementation 70 000 here
-    if not ctx.thorough():
-        big = crowd_episode(ctx.rng, 70000)
+    crowd_n = 1100000 if ctx.thorough() else 140000      # beyond 2^16, 10^5 / beyond 2^20, 10^6
+    if True:
+        big = crowd_episode(ctx.rng, crowd_n)
         rc, log, oi, _ = d.run_both([big], want_model=False)
         if rc != 0 or len(oi) != len(C.op_lines(big)):
             C.violation(ctx, "rl-crowd-impl-crash", {"what": "implementation run ended early (exit %d) after %d/%d ops" % (rc, len(oi), len(big)),
@@ -196,9 +199,9 @@ def check(ctx):
             fails = oracle(big, oi)
             if fails:
                 C.violation(ctx, "rl-crowd-oracle", {
-                    "what": "property oracle fails on the implementation's own outputs (one client spends its burst, 70 000 other addresses are seen, the client asks again)",
+                    "what": "property oracle fails on the implementation's own outputs (one client spends its burst, %d other addresses are seen, the client asks again)" % crowd_n,
                     "oracle_failures": fails[:5], "ops": big, "impl_outputs_head": oi[:8], "impl_outputs_tail": oi[-4:]})
-        ctx.cov["crowd_clients_oracle_only"] = 70000
+        ctx.cov["crowd_clients_oracle_only"] = crowd_n
     iso_checked = 0
     if bad == 0:
         si, _ = d.last
